@@ -169,6 +169,7 @@ public:
     void point(int kind);
     void waitChildren();                // taskwait of the current task
     void waitAll();                     // every task of the region
+    void scribbleStack();               // the dead-stack scribble fault, callable by the harness between library calls
 
     int  nameOf(const void* addr);
     void registerName(const void* addr, const std::string& name);
